@@ -369,5 +369,142 @@ def r12_7(ctx):
     return r
 
 
+PDP = "transports::sctp::SctpInner::process_data_payload::{closure#0}"
+
+
+def _flag_edge(mask, want):
+    def pred(term, meaning, *_):
+        # (flags & mask) != 0  on its True edge (or == 0 on its False edge)
+        t = term
+        if t[0] == "bin" and t[1] in ("Ne", "Eq") and mir.int_value(t[3]) == 0 and t[2][0] == "bin" and t[2][1] == "BitAnd" \
+                and mir.int_value(t[2][3]) == mask and mir.has(t[2][2], lambda x: x[0] == "field" and x[2] == "flags" or x == ("arg", "flags")):
+            truth = (meaning is True) if t[1] == "Ne" else (meaning is False)
+            return truth is want
+        return False
+    return pred
+
+
+def r12_8(ctx):
+    """receiver side of message boundaries (RFC 4960 6.9): a B fragment starts a fresh reassembly buffer, every
+    fragment is appended, and only an E fragment hands the WHOLE buffer (emptying it) to delivery; unordered or
+    non-ordered-channel messages go straight to the application, ordered ones through the per-stream SSN queue
+    keyed by the SSN parsed from this chunk. The bit masks are the sender's (B=0x02, E=0x01, U=0x04)."""
+    r = RuleResult("R12.8", "K1+K4", "reassembly: clear on B, append always, deliver the whole buffer on E only; ordered via the SSN queue")
+    b = ctx.body(PDP)
+    r.scope.append(PDP)
+
+    def on_buf(t):
+        return bool(t["a"]) and mir.has_field(b.term_operand(t["a"][0]), "reassembly_buffer")
+    clears = [bi for bi, t, p in b.calls() if p and p.endswith("BytesMut::clear") and on_buf(t)]
+    appends = [bi for bi, t, p in b.calls() if p and p.endswith("BytesMut::extend_from_slice") and on_buf(t)]
+    takes = [bi for bi, t, p in b.calls() if p and p.endswith("mem::take") and on_buf(t)]
+    sends = [(bi, t) for bi, t, p in b.calls() if p and p.endswith("DataChannel::send_event")]
+    enq = [(bi, t) for bi, t, p in b.calls() if p and p.endswith("InboundStream::enqueue") and
+           not (b.term_operand(t["a"][2])[0] == "call" and b.term_operand(t["a"][2])[1].endswith("Bytes::new"))]
+    r.need("reassembly append / take sites", min(len(appends), len(takes)), 1)
+    r.need("message delivery sites", len(sends) + len(enq), 3)
+    gB = core.guard_edges(b, _flag_edge(0x02, True))
+    gE = core.guard_edges(b, _flag_edge(0x01, True))
+    gU = core.guard_edges(b, _flag_edge(0x04, True))
+    if not gB or not gE or not gU:
+        r.violate(PDP, "flags", b.where(0), "the B (0x02) / E (0x01) / U (0x04) flag tests of the sender's encoding are not all present")
+        return r
+    for bi in clears:
+        if core.k1(b, [bi], gB)[bi] is None:
+            r.ok({"site": b.where(bi), "clear": "only on the B edge"})
+        else:
+            r.violate(PDP, "clear:reassembly", b.where(bi), "reassembly buffer cleared on a fragment that is not a B fragment: a multi-fragment message is truncated")
+    # on the B edge the clear is passed before the append
+    for (sb, tgt) in gB:
+        for ab in appends:
+            if b.path_to([tgt], ab, cut_blocks=set(clears)) is None:
+                r.ok({"B edge": b.where(sb), "then": "clear before append"})
+            else:
+                r.violate(PDP, "B:no-clear", b.where(sb), "a B fragment can be appended without the buffer having been cleared: leftovers of an unfinished message are merged into the next one")
+    for bi in takes:
+        if core.k1(b, [bi], gE)[bi] is None and appends and core.must_pass(b, bi, appends):
+            r.ok({"site": b.where(bi), "take": "only on the E edge, after the append"})
+        else:
+            r.violate(PDP, "take:reassembly", b.where(bi), "the reassembly buffer is handed on without an E fragment (or before this fragment was appended): a message is split or truncated")
+    msg_ok = lambda v: v[0] == "call" and v[1].endswith("BytesMut::freeze") and mir.has(v, lambda x: x[0] == "call" and x[1].endswith("mem::take"))
+    for bi, t in sends:
+        ev = b.term_operand(t["a"][1])
+        if not (ev[0] == "agg" and ev[2] == "Message"):
+            continue
+        payload = ev[3][0]
+        direct = msg_ok(payload)
+        via_queue = mir.has(payload, lambda x: x[0] == "call" and x[1].endswith("InboundStream::enqueue"))
+        cutE = core.k1(b, [bi], gE)[bi] is None
+        if cutE and (direct or via_queue):
+            r.ok({"site": b.where(bi), "delivers": "take(buffer).freeze()" if direct else "messages released by the SSN queue"})
+        else:
+            r.violate(PDP, "deliver:Message", b.where(bi), "a Message event is emitted that is not the complete reassembly buffer of an E fragment (or a message released by the SSN queue)")
+    for bi, t in enq:
+        ssn, msg = b.term_operand(t["a"][1]), b.term_operand(t["a"][2])
+        ssn_ok = ssn[0] == "call" and ssn[1].endswith("Buf::get_u16")
+        if core.k1(b, [bi], gE)[bi] is None and msg_ok(msg) and ssn_ok:
+            # ordered path must not be taken for U-flagged chunks
+            if core.k1(b, [bi], gU)[bi] is None or not any(b.path_to([tg], bi) for (_, tg) in gU):
+                r.ok({"site": b.where(bi), "enqueue": "(stream_seq of this chunk, whole message), not reachable on the U edge"})
+            else:
+                r.violate(PDP, "enqueue:unordered", b.where(bi), "an unordered (U) message is put through the ordered SSN queue")
+        else:
+            r.violate(PDP, "enqueue", b.where(bi), "the SSN queue is fed with something other than (SSN of this chunk, complete message of an E fragment)")
+    return r
+
+
+def r12_9(ctx):
+    """ordered delivery queue: a message is never dropped on arrival (always inserted), and messages leave only
+    by key `next_ssn`, which then advances by exactly one (wrapping) - or are purged by advance_ssn_to (FORWARD-TSN)
+    under ssn_gt. No position/order dependent access: BTreeMap<u16> order is not SSN order across 65535 -> 0."""
+    r = RuleResult("R12.9", "K3+K4", "SSN queue: insert always; release only pending.remove(&next_ssn), next_ssn += 1")
+    I = "transports::sctp::InboundStream::"
+    enq, drain = ctx.body(I + "enqueue"), ctx.body(I + "drain_ready")
+    r.scope += [enq.name, drain.name]
+    ins = [bi for bi, t, p in enq.calls() if p and p.endswith("BTreeMap::<K, V, A>::insert") and mir.has_field(enq.term_operand(t["a"][0]), "pending")]
+    rets = [i for i, blk in enumerate(enq.blocks) if blk["t"]["k"] == "ret" and i not in enq.cleanup]
+    early = [bi for bi, t, p in enq.calls() if p and p.endswith("InboundStream::drain_ready")]
+    # every return either follows the insert, or returns what a drain released while the queue was at its cap
+    for rb in rets:
+        if ins and enq.path_to([0], rb, cut_blocks=set(ins) | set(early)) is None:
+            r.ok({"enqueue return": enq.where(rb), "after": "pending.insert(ssn, msg) (or a drain at the cap)"})
+        else:
+            r.violate(enq.name, "drop:on-arrival", enq.where(rb), "enqueue can return without having stored the message")
+    n = 0
+    for body in ctx.facts.bodies(prefix="transports::sctp::"):
+        if "::tests::" in body.name:
+            continue
+        for bi, t, p in body.calls():
+            if not p or not t["a"] or not mir.has_field(body.term_operand(t["a"][0]), "pending"):
+                continue
+            if "InboundStream" not in body.name and not mir.has(body.term_operand(t["a"][0]), lambda x: x[0] == "field" and x[2] == "pending"):
+                continue
+            if body.locals[t["a"][0]["p"]["l"]]["ty"].find("BTreeMap<u16") < 0 and "BTreeMap<u16" not in body.locals[t["a"][0]["p"]["l"]]["ty"]:
+                pass
+            m = p.split("::")[-1]
+            if m in ("len", "is_empty", "insert", "keys", "lock", "deref", "deref_mut", "into_iter", "next", "filter", "cloned", "collect"):
+                continue
+            n += 1
+            if m == "remove":
+                k = body.term_operand(t["a"][1])
+                if body.name.endswith("drain_ready") and mir.field_path(k) == "self.next_ssn":
+                    r.ok({"site": body.where(bi), "release": "pending.remove(&self.next_ssn)"})
+                elif body.name.endswith("advance_ssn_to"):
+                    r.ok({"site": body.where(bi), "purge": "keys filtered by !ssn_gt(s, ssn)"})
+                else:
+                    r.violate(body.name, "call:remove", body.where(bi), "message taken from the SSN queue by a key other than next_ssn")
+            else:
+                r.violate(body.name, "call:%s" % m, body.where(bi), "position/order dependent access (%s) to the SSN-keyed queue" % m)
+    ws = [(bi, si, st) for bi, si, st in core.field_writes(drain, lambda f: f == "next_ssn")]
+    for bi, si, st in ws:
+        v = drain.term_rvalue(st["rv"]) if si is not None else drain.term_call(st)
+        if v[0] == "call" and v[1].endswith("wrapping_add") and mir.field_path(v[2][0]) == "self.next_ssn" and mir.int_value(v[2][1]) == 1:
+            r.ok({"site": drain.where(bi, si), "next_ssn": "wrapping_add(1) per released message"})
+        else:
+            r.violate(drain.name, "write:next_ssn", drain.where(bi, si), "next_ssn does not advance by exactly one per released message")
+    r.need("SSN queue release / advance sites", n + len(ws), 3)
+    return r
+
+
 def run(ctx):
-    return [r12_1(ctx), r12_2(ctx), r12_2b(ctx), r12_3(ctx), r12_4(ctx), r12_5(ctx), r12_6(ctx), r12_7(ctx)]
+    return [r12_1(ctx), r12_2(ctx), r12_2b(ctx), r12_3(ctx), r12_4(ctx), r12_5(ctx), r12_6(ctx), r12_7(ctx), r12_8(ctx), r12_9(ctx)]
